@@ -202,7 +202,7 @@ def gen_op(rng, prof, R):
             return          # documented usage contract of gather_and_close (known finding R9 is replayed separately)
         R.do(on + ["unlock"])
     elif k == "set_size":
-        R.do(on + ["set_size", str(rng.randint(-1, 4))])
+        R.do(on + ["set_size", str(rng.choice(prof["set_sizes"]) if prof.get("set_sizes") else rng.randint(-1, 4))])
     elif k == "get_ids":
         names = [rng.choice(ctx.names + ["nope"]) if ctx.names else "nope" for _ in range(rng.randint(0, 3))]
         R.do(on + ["get_ids"] + names)
